@@ -121,12 +121,14 @@ Format(f, args) == Norm(RenderR(Parse(f).items, 1, args, 1, <<>>))
 
 --------------------------------------------------------------------------
 (* judging one formatting event                                                            *)
-(*   e = [k, f, a, out (runs), panic (BOOLEAN), allocs (average heap allocations per call)] *)
+(*   e = [k, f, a, out (runs), panic, hang (BOOLEAN), allocs (average heap allocations per call)] *)
 (* returns the list of checks <<property, failed, explanation>>                             *)
 Judge(e) ==
   LET g == InGrammar(e.f)
-      want == IF g /\ ~e.panic THEN Format(e.f, e.a) ELSE <<>>
-  IN << <<"C15", e.panic, <<"formatter panicked">> >>,
-        <<"C15", g /\ ~e.panic /\ e.out # want, <<"output differs from Format(f, a): want", want, "got", e.out>> >>,
-        <<"C15", ~e.panic /\ e.allocs # 0, <<"heap allocations per call", e.allocs>> >> >>
+      ran == ~e.panic /\ ~e.hang
+      want == IF g /\ ran THEN Format(e.f, e.a) ELSE <<>>
+  IN << <<"C15", e.hang, <<"formatter did not return (CPU-time watchdog): Format always terminates">> >>,
+        <<"C15", e.panic, <<"formatter panicked">> >>,
+        <<"C15", g /\ ran /\ e.out # want, <<"output differs from Format(f, a): want", want, "got", e.out>> >>,
+        <<"C15", ran /\ e.allocs # 0, <<"heap allocations per call", e.allocs>> >> >>
 ====
